@@ -19,12 +19,25 @@ REPO_SRCS = ["hash.c", "common.c"]
 LEAN_TARGETS = ["Cstl.Hash.Props", "m_hash"]
 IMPORTS = ["Cstl.Hash.Props"]
 
+_P = "Cstl.Hash."
 THEOREMS = {
-    "C03": [],
-    "C04": [],
-    "C19": [],
-    "C17": [],
+    "C03": [_P + n for n in (
+        "inv_init", "insert_exact", "find_exact", "find_answers", "erase_exact", "size_exact",
+        "resize_exact", "rehash_exact", "shrink_exact", "step_inv", "run_exact", "run_inv")],
+    "C04": [_P + n for n in (
+        "visited_exactly_once", "visited_results", "foreach_once", "foreachConst_once", "foreachConst_all",
+        "clear_once", "clear_reusable", "step_inv", "run_inv")],
+    "C19": [_P + n for n in (
+        "load_spec", "resize_lands", "heading_kept_keyed", "heading_kept_rehash", "heading_kept_shrink",
+        "settled_single_call", "keyed_cost_and_progress", "rehash_finishes", "rehash_finishes_sharp")],
+    # part b of C17 (part a: area hashfn)
+    "C17": [_P + n for n in (
+        "getBucket_failstop", "insert_failstop", "find_failstop", "erase_failstop", "resize_failstop",
+        "rehash_failstop", "shrink_failstop", "foreach_failstop", "foreachConst_failstop", "clear_failstop",
+        "run_failstop")],
 }
+# statements kept in the Lean files as `def ..._statement : Prop` (not proved, not listed above):
+#   Cstl.Hash.keyed_untouched_buckets_statement (C19), Cstl.Hash.run_no_abort_in_range_statement (C17/C03)
 
 NE = 256
 GOOD_FNS = (0, 1, 2, 3)
@@ -304,8 +317,11 @@ def oracle(prop, script, c_lines):
         live_before = dict(t.live) if t is not None else {}
         req_before = (t.fn, t.n) if t is not None else None
 
-        # ---- results against the ledger (C03, C04)
-        if o == "find":
+        # ---- results against the ledger: find is C03's, enumeration and clear are C04's
+        # (the ledger itself is kept for every property)
+        chk_find = prop == "C03"
+        chk_enum = prop == "C04"
+        if o == "find" and chk_find:
             m = re.match(r"r=(-?\d+) of=(\[[^\]]*\])$", res)
             if not m:
                 return "op %d '%s': unparsable result '%s'" % (i, op, res)
@@ -341,18 +357,19 @@ def oracle(prop, script, c_lines):
             r, vis = int(m.group(1)), parse_idlist(m.group(2))
             stop = int(w[2])
             L = sorted(t.live)
-            if len(set(vis)) != len(vis):
+            if not chk_enum:
+                pass
+            elif len(set(vis)) != len(vis):
                 return "op %d '%s': an element was visited twice: %s" % (i, op, vis)
-            if any(x not in t.live for x in vis):
+            elif any(x not in t.live for x in vis):
                 return "op %d '%s': visited %s, live elements are %s" % (i, op, vis, L)
-            if 0 <= stop < len(L):
+            elif 0 <= stop < len(L):
                 if len(vis) != stop + 1 or r != 7:
                     return ("op %d '%s': visit asked to stop at call #%d with 7: %d calls, returned %d"
                             % (i, op, stop, len(vis), r))
-            else:
-                if sorted(vis) != L or r != 0:
-                    return ("op %d '%s': visited %s (returned %d), live elements are %s"
-                            % (i, op, sorted(vis), r, L))
+            elif sorted(vis) != L or r != 0:
+                return ("op %d '%s': visited %s (returned %d), live elements are %s"
+                        % (i, op, sorted(vis), r, L))
             if o == "foreach":
                 mask = int(w[3])
                 for j, e in enumerate(vis):
@@ -364,7 +381,9 @@ def oracle(prop, script, c_lines):
                 return "op %d '%s': unparsable result '%s'" % (i, op, res)
             vis = parse_idlist(m.group(1))
             L = sorted(t.live)
-            if w[2] == "1":
+            if not chk_enum:
+                pass
+            elif w[2] == "1":
                 if sorted(vis) != L:
                     return ("op %d '%s': clear callback got %s, live elements were %s"
                             % (i, op, sorted(vis), L))
@@ -373,9 +392,9 @@ def oracle(prop, script, c_lines):
 
         ref.apply(op)
 
-        # ---- size (C03; "leaves the table empty" C04)
+        # ---- size (C03; C04: what foreach-with-erase and clear leave behind)
         for k in (0, 1):
-            if tabs[k].sz != len(ref.tabs[k].live):
+            if prop in ("C03", "C04") and tabs[k].sz != len(ref.tabs[k].live):
                 return ("op %d '%s': table %d reports size %d, %d elements are live"
                         % (i, op, k, tabs[k].sz, len(ref.tabs[k].live)))
 
@@ -480,11 +499,13 @@ def corpus():
 # small-scope closure
 
 
-def scope(tier, focus=None):
-    """(elements -> key, bucket counts, hash ids)"""
+def scope(tier, which=0):
+    """(elements -> key, bucket counts, hash ids, max states); two elements share a key"""
     if tier == "quick":
-        return {1: 1, 2: 1, 3: 2, 4: 6}, (1, 2, 3), (1, 2)
-    return {1: 1, 2: 1, 3: 2, 4: 2, 5: 5}, (1, 2, 3, 4), (1, 2, 3)
+        return {1: 1, 2: 1, 3: 2}, (1, 2, 3), (1, 2), 10 ** 6
+    if which == 0:
+        return {1: 1, 2: 1, 3: 2, 4: 6}, (1, 2, 3), (1, 2), 10 ** 6
+    return {1: 1, 2: 1, 3: 2, 4: 2, 5: 5}, (1, 2, 3, 4), (1, 2, 3), 4000
 
 
 def closure_init(elems):
@@ -523,14 +544,14 @@ def make_alphabet(elems, counts, fns, focus):
                 if e not in live and k not in seen_keys:
                     seen_keys.add(k)       # free elements with one key are interchangeable
                     ops.append("ins 0 %d %d" % (k, e))
-            for k in keys + [absent_key]:
+            for k in keys:
                 for a in ("n", "-1", "0", "1"):
                     ops.append("find 0 %d %s" % (k, a))
+            ops += ["find 0 %d n" % absent_key, "find 0 %d -1" % absent_key]
             for e in sorted(elems):
                 ops.append("erase 0 %d" % e)
-            for stop in ("-1", "0", "1"):
-                for mask in (0, 1, 2, 5, 31):
-                    ops.append("foreach 0 %s %d" % (stop, mask))
+            for stop, mask in ((-1, 0), (-1, 1), (-1, 2), (-1, 5), (-1, 31), (0, 0), (0, 1), (1, 2), (1, 0)):
+                ops.append("foreach 0 %d %d" % (stop, mask))
         else:
             ops.append("foreach 0 -1 0")
         return ops
@@ -661,7 +682,17 @@ def c17b_scripts(rng=None, nrandom=0):
         for sc in random_scripts(rng, nrandom, 60, nkeys=12, maxn=8, nelem=40,
                                  fns=GOOD_FNS + ALWAYS_BAD + KEY_BAD + KEY_BAD, bad=True):
             out.append(sc)
-    return out
+    return [truncate_to_domain(sc, True) for sc in out]
+
+
+def truncate_to_domain(script, allow_bad=False):
+    """longest prefix inside the documented domain (e.g. no lookup in a cleared table)"""
+    ref = Ref()
+    for i, op in enumerate(script):
+        if not ref.enabled(op, allow_bad):
+            return script[:i]
+        ref.apply(op)
+    return script
 
 
 # ---------------------------------------------------------------------------
@@ -688,20 +719,30 @@ def run_prop(chk, leanchecker=True):
     orc = oracle
     vlib.run_scripts(chk, area, c_exe, m_exe, corpus(), orc)
     vlib.run_scripts(chk, area, c_exe, m_exe, boundary_scripts(), orc)
-    elems, counts, fns = scope(chk.tier)
     if chk.tier == "quick":
-        max_depth, max_states = 40, 2500
-        rnd = random_scripts(chk.rng, 40, 400) + random_scripts(chk.rng, 40, 120, nkeys=6, maxn=6, nelem=24)
+        rnd = random_scripts(chk.rng, 24, 400) + random_scripts(chk.rng, 30, 120, nkeys=6, maxn=6, nelem=24)
+        scopes = [scope("quick")]
     else:
-        max_depth, max_states = 60, 60000
         rnd = random_scripts(chk.rng, 300, 800) + random_scripts(chk.rng, 400, 150, nkeys=6, maxn=6, nelem=24)
-    closed = vlib.closure(chk, NAME, c_exe, m_exe, closure_init(elems), make_alphabet(elems, counts, fns, prop),
-                          max_depth, max_states, orc)
-    chk.exhaustive = bool(closed)
-    chk.extra["scope"] = ("closure over canonical model states: elements->keys %s, bucket counts %s, hash ids %s, "
-                          "every operation of the alphabet from every state (max %d states); closed=%s; "
-                          "random: %d histories over 2 tables, up to 64 buckets, 64 keys"
-                          % (elems, list(counts), list(fns), max_states, closed, len(rnd)))
+        scopes = [scope("thorough", 0), scope("thorough", 1)]
+    notes = []
+    for k, (elems, counts, fns, max_states) in enumerate(scopes):
+        states0 = chk.stats["states"]
+        closed = vlib.closure(chk, NAME, c_exe, m_exe, closure_init(elems), make_alphabet(elems, counts, fns, prop),
+                              200, max_states, orc)
+        nstates = chk.stats["states"] - states0
+        closed = bool(closed) and nstates <= max_states     # states beyond the cap were seen but not expanded
+        if k == 0:
+            chk.exhaustive = closed
+        notes.append("elements->keys %s, bucket counts %s, hash ids %s: %d states, closed=%s"
+                     % (elems, list(counts), list(fns), nstates, closed))
+    chk.extra["scope"] = ("closure over canonical model states, every operation of the alphabet from every state "
+                          "(resize to every count with every function and NULL, also during a pending resize; "
+                          "insert, find with no / rejecting / accepting visit function, erase present and absent, "
+                          "rehash, shrink, foreach with erasing callbacks and early stop, foreach_const, clear): "
+                          + "; ".join(notes) + "; 'exhaustive' refers to the first scope; random: %d histories over "
+                          "2 tables with swap, up to 64 buckets, 64 keys; boundary bucket counts around 2^36, 2^60, "
+                          "SIZE_MAX" % len(rnd))
     vlib.run_scripts(chk, area, c_exe, m_exe, rnd, orc)
     if chk.mismatches and not chk.oracle_failures:
         m = chk.mismatches[0]
